@@ -26,6 +26,7 @@ static void bignat_append_c(struct BigNat *mant, uint32_t dig)
 __CPROVER_requires(WF_BIGNAT(mant))
 __CPROVER_requires(dig < BIGNAT_BASE)                 /* digit bound preserved: checked at the call site in bignat_muladd */
 __CPROVER_assigns(mant->n, mant->cap, mant->digits)
+__CPROVER_assigns(mant->cap > 0: __CPROVER_object_whole(mant->digits))
 __CPROVER_ensures(mant->n == __CPROVER_old(mant->n) + 1)
 ;
 
@@ -44,6 +45,96 @@ __CPROVER_ensures(mant->n == g_n0 || mant->n == g_n0 + 1)
  * bignat_append_c's precondition) */
 __CPROVER_ensures((mant->n == g_n0 && 0 <= g_idx && g_idx < g_n0) ==> mant->digits[g_idx] < BIGNAT_BASE)
 ;
+
+/* ---- bignat_extra / bignat_append against realloc's contract ---- */
+size_t g_rsz;      /* ghost: size handed to realloc */
+void *realloc_c(void *p, size_t sz)
+__CPROVER_assigns(g_rsz)
+__CPROVER_ensures(g_rsz == sz)
+__CPROVER_ensures(__CPROVER_return_value == NULL || __CPROVER_is_fresh(__CPROVER_return_value, sz))
+;
+
+static uint32_t *bignat_extra_c(struct BigNat *mant, int32_t n)
+__CPROVER_requires(__CPROVER_is_fresh(mant, sizeof(*mant)))
+__CPROVER_requires(WF_BIGNAT(mant) && mant->n == g_n0)
+__CPROVER_requires(mant->cap > 0 ==> __CPROVER_is_fresh(mant->digits, (size_t) mant->cap * sizeof(uint32_t)))
+__CPROVER_requires(mant->cap == 0 ==> mant->digits == NULL)
+__CPROVER_requires(n >= 0 && n <= NUM_CAPMAX)
+__CPROVER_assigns(mant->n, mant->cap, mant->digits, g_rsz)
+__CPROVER_ensures(mant->n == g_n0 + n && mant->n <= mant->cap)
+/* the n new digits are writable storage inside the (possibly new) block */
+__CPROVER_ensures(n > 0 ==> __CPROVER_w_ok(__CPROVER_return_value, (size_t) n * sizeof(uint32_t)))
+__CPROVER_ensures(n > 0 ==> __CPROVER_return_value == mant->digits + g_n0)
+;
+
+static void bignat_append_e(struct BigNat *mant, uint32_t dig)
+__CPROVER_requires(__CPROVER_is_fresh(mant, sizeof(*mant)))
+__CPROVER_requires(WF_BIGNAT(mant) && mant->n == g_n0 && mant->cap < NUM_CAPMAX)
+__CPROVER_requires(mant->cap > 0 ==> __CPROVER_is_fresh(mant->digits, (size_t) mant->cap * sizeof(uint32_t)))
+__CPROVER_requires(mant->cap == 0 ==> mant->digits == NULL)
+__CPROVER_assigns(mant->n, mant->cap, mant->digits, g_rsz)
+__CPROVER_assigns(mant->cap > 0: __CPROVER_object_whole(mant->digits))
+__CPROVER_ensures(mant->n == g_n0 + 1 && mant->n <= mant->cap)
+__CPROVER_ensures(mant->digits[g_n0] == dig)
+;
+
+/* ---- bignat_div: every index in range for any n (loop contract); divisor != 0 ---- */
+static void bignat_div_c(struct BigNat *mant, uint32_t divisor)
+__CPROVER_requires(__CPROVER_is_fresh(mant, sizeof(*mant)))
+__CPROVER_requires(WF_BIGNAT(mant) && mant->n == g_n0)
+__CPROVER_requires(mant->cap > 0 ==> __CPROVER_is_fresh(mant->digits, (size_t) mant->cap * sizeof(uint32_t)))
+__CPROVER_requires(mant->cap == 0 ==> mant->digits == NULL)
+__CPROVER_requires(divisor >= 2 && divisor <= NUM_FACTOR_MAX)
+__CPROVER_assigns(mant->first_digit, mant->n)
+__CPROVER_assigns(mant->cap > 0: __CPROVER_object_whole(mant->digits))
+__CPROVER_ensures(mant->n == g_n0 || (g_n0 > 0 && mant->n == g_n0 - 1))
+;
+
+/* ---- bignat_lshift_n: the block moves stay inside the digit array ---- */
+void *memmove_c(void *dst, const void *src, size_t sz)
+__CPROVER_requires(sz == 0 || (__CPROVER_w_ok(dst, sz) && __CPROVER_r_ok(src, sz)))
+__CPROVER_assigns(sz > 0: __CPROVER_object_whole(dst))
+;
+void *memset_c(void *dst, int c, size_t sz)
+__CPROVER_requires(sz == 0 || __CPROVER_w_ok(dst, sz))
+__CPROVER_assigns(sz > 0: __CPROVER_object_whole(dst))
+;
+
+static void bignat_lshift_n_c(struct BigNat *mant, int n)
+__CPROVER_requires(__CPROVER_is_fresh(mant, sizeof(*mant)))
+__CPROVER_requires(WF_BIGNAT(mant) && mant->n == g_n0)
+__CPROVER_requires(mant->cap > 0 ==> __CPROVER_is_fresh(mant->digits, (size_t) mant->cap * sizeof(uint32_t)))
+__CPROVER_requires(mant->cap == 0 ==> mant->digits == NULL)
+__CPROVER_requires(n >= 0 && n <= 4096)            /* convert(): shamt = 5 - exponent/4 with the exponent short-circuited at ~-1200 */
+__CPROVER_assigns(mant->first_digit, mant->n, mant->cap, mant->digits, g_rsz)
+__CPROVER_assigns(mant->cap > 0: __CPROVER_object_whole(mant->digits))
+__CPROVER_ensures(mant->n == g_n0 + n && mant->n <= mant->cap)
+__CPROVER_ensures(n > 0 ==> mant->first_digit == 0)
+;
+
+void h_bignat_div(void) {
+  struct BigNat *m; uint32_t d;
+  bignat_div(m, d);
+  REACH("bignat_div returns");
+}
+
+void h_bignat_lshift(void) {
+  struct BigNat *m; int n;
+  bignat_lshift_n(m, n);
+  REACH("bignat_lshift_n returns");
+}
+
+void h_bignat_extra(void) {
+  struct BigNat *m; int32_t n;
+  uint32_t *r = bignat_extra(m, n);
+  REACH("bignat_extra returns");
+}
+
+void h_bignat_append(void) {
+  struct BigNat *m; uint32_t d;
+  bignat_append(m, d);
+  REACH("bignat_append returns");
+}
 
 void h_bignat_muladd(void) {
   struct BigNat *m; uint32_t f, t;
